@@ -1,13 +1,59 @@
 From Coq Require Import NArith List Lia Bool Arith ZArith ZifyBool ZifyNat ZifyN.
-From Rodbus Require Import Model.Retry Spec.RetrySpec Proofs.RetryProofs Model.RetryTask.
+From Rodbus Require Import Model.Retry Spec.RetrySpec Proofs.RetryProofs Gen.RetryArms Model.RetryTask.
 Import ListNotations.
 Local Open Scope N_scope.
+
+(* ------------------------------------------------------------------ the generated arm tables say what the Spec expects
+   tstep is defined from Gen/RetryArms.v. Written out with the strategy calls the Spec's calls_of expects (a failed
+   attempt = Fail, a success = Reset, EVERY kind of lost session = Disc, a disabled channel = no call) it is tstep_ref;
+   the two agree for the tables generated from the unchanged source. A source in which some arm calls another
+   strategy method regenerates the table and this lemma, with everything below, stops compiling. *)
+Definition tstep_ref (v : variant) (t : task) (e : tevent) : option (task * list tout) :=
+  match phase t, e with
+  | Idle, AttemptFails =>
+      match step (strat t) Fail with
+      | Some (s', Some d) => Some ({| strat := s'; phase := Waiting d |}, OAttempt :: announce v AfterFailedConnect d ++ [OArm d])
+      | _ => None
+      end
+  | Idle, AttemptOk =>
+      match step (strat t) Reset with
+      | Some (s', _) => Some ({| strat := s'; phase := Up |}, OAttempt :: on_success v)
+      | None => None
+      end
+  | Up, Lost _ =>
+      match step (strat t) Disc with
+      | Some (s', Some d) => Some ({| strat := s'; phase := Waiting d |}, announce v AfterDisconnect d ++ [OArm d])
+      | _ => None
+      end
+  | Up, Interrupt => Some ({| strat := strat t; phase := Idle |}, [ODisabled])
+  | Waiting d, Elapsed => Some ({| strat := strat t; phase := Idle |}, [OElapsed d])
+  | Waiting d, Interrupt => Some ({| strat := strat t; phase := Idle |}, [ODisabled])
+  | _, _ => Some (t, [])
+  end.
+
+Lemma lost_arm_is_after_disconnect v k : session_arm v (end_of k) = ArmWait CallAfterDisconnect.
+Proof. destruct v, k; reflexivity. Qed.
+Lemma disabled_arm_does_not_wait v : session_arm v EndDisabled = ArmNoWait.
+Proof. destruct v; reflexivity. Qed.
+Lemma shutdown_arm_ends_the_task v : session_arm v EndShutdown = ArmShutdown.
+Proof. destruct v; reflexivity. Qed.
+Lemma failed_attempt_is_after_failed_connect v : failed_call v = CallAfterFailedConnect.
+Proof. destruct v; reflexivity. Qed.
+Lemma success_resets v : resets_on_success v = true.
+Proof. destruct v; reflexivity. Qed.
+
+Lemma tstep_eq v t e : tstep v t e = tstep_ref v t e.
+Proof.
+  unfold tstep, tstep_ref, session_ends, wait_with.
+  destruct (phase t); destruct e; try reflexivity;
+    rewrite ?lost_arm_is_after_disconnect, ?disabled_arm_does_not_wait, ?failed_attempt_is_after_failed_connect, ?success_resets; reflexivity.
+Qed.
 
 (* ------------------------------------------------------------------ announced delay = armed delay *)
 Lemma announce_then_arm v t e t' o k d : tstep v t e = Some (t', o) -> In (OAnnounce k d) o ->
   (exists pre, o = pre ++ [OAnnounce k d; OArm d]) /\ phase t' = Waiting d.
 Proof.
-  unfold tstep. destruct (phase t) as [|w|]; destruct e; intros H Hin;
+  rewrite tstep_eq; unfold tstep_ref. destruct (phase t) as [|w|]; destruct e; intros H Hin;
     try (inversion H; subst; cbn in Hin; repeat (destruct Hin as [Hin|Hin]; try discriminate Hin); contradiction).
   - destruct (step (strat t) Fail) as [[s' [d0|]]|]; try discriminate. inversion H; subst. clear H.
     destruct v; cbn in Hin |- *.
@@ -27,7 +73,7 @@ Qed.
 Lemma arm_was_announced v t e t' o d : v <> RtuServer -> tstep v t e = Some (t', o) -> In (OArm d) o ->
   exists k pre, o = pre ++ [OAnnounce k d; OArm d].
 Proof.
-  intros Hv. unfold tstep. destruct (phase t) as [|w|]; destruct e; intros H Hin;
+  intros Hv. rewrite tstep_eq; unfold tstep_ref. destruct (phase t) as [|w|]; destruct e; intros H Hin;
     try (inversion H; subst; cbn in Hin; repeat (destruct Hin as [Hin|Hin]; try discriminate Hin); contradiction).
   - destruct (step (strat t) Fail) as [[s' [d0|]]|]; try discriminate. inversion H; subst. clear H.
     destruct v; [| |contradiction]; cbn in Hin |- *;
@@ -45,14 +91,14 @@ Lemma waiting_is_quiet v t e t' o d : phase t = Waiting d -> tstep v t e = Some 
   (e = Elapsed /\ o = [OElapsed d] /\ phase t' = Idle /\ strat t' = strat t) \/
   (e = Interrupt /\ o = [ODisabled] /\ phase t' = Idle /\ strat t' = strat t).
 Proof.
-  unfold tstep. intros -> H. destruct e; inversion H; subst; cbn; auto.
+  rewrite tstep_eq; unfold tstep_ref. intros -> H. destruct e; inversion H; subst; cbn; auto.
   - right. left. auto.
   - right. right. auto.
 Qed.
 
 Lemma attempt_only_when_idle v t e t' o : tstep v t e = Some (t', o) -> In OAttempt o -> phase t = Idle.
 Proof.
-  unfold tstep. destruct (phase t) as [|w|]; destruct e; intros H Hin; try reflexivity;
+  rewrite tstep_eq; unfold tstep_ref. destruct (phase t) as [|w|]; destruct e; intros H Hin; try reflexivity;
     try (inversion H; subst; cbn in Hin; repeat (destruct Hin as [Hin|Hin]; try discriminate Hin); contradiction).
   destruct (step (strat t) Disc) as [[s' [d0|]]|]; try discriminate. inversion H; subst.
   destruct v; cbn in Hin; repeat (destruct Hin as [Hin|Hin]; try discriminate Hin); contradiction.
@@ -63,7 +109,7 @@ Lemma reset_iff_success v t e t' o : tstep v t e = Some (t', o) ->
   (In OReset o <-> (phase t = Idle /\ e = AttemptOk)) /\
   (In OReset o -> o = OAttempt :: on_success v /\ cur (strat t') = dmin (strat t') /\ phase t' = Up).
 Proof.
-  unfold tstep. destruct (phase t) as [|w|] eqn:Ep; destruct e; intros H;
+  rewrite tstep_eq; unfold tstep_ref. destruct (phase t) as [|w|] eqn:Ep; destruct e; intros H;
     try (inversion H; subst; cbn; split; [split; [intros Hin; repeat (destruct Hin as [Hin|Hin]; try discriminate Hin); contradiction|intros [? ?]; discriminate]|
                                           intros Hin; repeat (destruct Hin as [Hin|Hin]; try discriminate Hin); contradiction]).
   - destruct (step (strat t) Fail) as [[s' [d0|]]|]; try discriminate. inversion H; subst.
@@ -79,7 +125,7 @@ Qed.
 Lemma up_iff_success v t e t' o : v <> RtuServer -> tstep v t e = Some (t', o) ->
   (In OUp o <-> In OReset o).
 Proof.
-  intros Hv. unfold tstep. destruct (phase t) as [|w|]; destruct e; intros H;
+  intros Hv. rewrite tstep_eq; unfold tstep_ref. destruct (phase t) as [|w|]; destruct e; intros H;
     try (inversion H; subst; cbn; split; intros Hin; repeat (destruct Hin as [Hin|Hin]; try discriminate Hin); contradiction).
   - destruct (step (strat t) Fail) as [[s' [d0|]]|]; try discriminate. inversion H; subst.
     destruct v; cbn; split; intros Hin; repeat (destruct Hin as [Hin|Hin]; try discriminate Hin); contradiction.
@@ -107,7 +153,7 @@ Proof.
   intros Hle Hov. induction evs as [|e r IH]; intros t k Hmn Hmx Hc; cbn [trun calls_of].
   - exists t, []. repeat split; reflexivity.
   - assert (Hb : cur (strat t) <= mx) by (rewrite Hc; unfold delay_spec; lia).
-    unfold tstep. destruct (phase t) as [|w|] eqn:Ep; destruct e; cbn [kind_of knext];
+    rewrite tstep_eq; unfold tstep_ref. destruct (phase t) as [|w|] eqn:Ep; destruct e; cbn [kind_of knext];
       try (destruct (IH t k Hmn Hmx Hc) as (t' & o & E & Ea & Eb); rewrite Ep in *; cbn [kind_of] in *;
            exists t', o; rewrite E; cbn [app]; auto; fail).
     + (* Idle, AttemptFails *)
@@ -165,4 +211,18 @@ Lemma task_delays_from_init v mn mx : mn <= mx -> 2 * mx <= dur_max -> forall ev
 Proof.
   intros Hle Hov evs. apply (task_delays v mn mx Hle Hov evs (tinit mn mx) 0%nat); try reflexivity.
   unfold tinit, create, delay_spec; cbn. lia.
+Qed.
+
+(* ------------------------------------------------------------------ whichever way the session was lost *)
+Lemma after_any_loss v mn mx k : mn <= mx -> 2 * mx <= dur_max ->
+  exists t' o, trun v (tinit mn mx) [AttemptFails; Elapsed; AttemptFails; Elapsed; AttemptOk; Lost k; Elapsed; AttemptFails; Elapsed; AttemptFails; Elapsed; AttemptFails] = Some (t', o) /\
+    armed o = [mn; N.min (2 * mn) mx; mn; mn; N.min (2 * mn) mx; N.min (4 * mn) mx].
+Proof.
+  intros Hle Hov.
+  destruct (task_delays_from_init v mn mx Hle Hov
+              [AttemptFails; Elapsed; AttemptFails; Elapsed; AttemptOk; Lost k; Elapsed; AttemptFails; Elapsed; AttemptFails; Elapsed; AttemptFails])
+    as (t' & o & E & Ea & _).
+  exists t', o. split; [exact E|]. rewrite Ea. cbn [calls_of knext app spec somes flat_map].
+  unfold delay_spec. change (2 ^ N.of_nat 0) with 1. change (2 ^ N.of_nat 1) with 2. change (2 ^ N.of_nat 2) with 4.
+  rewrite N.mul_1_r, (N.min_l mn mx Hle), (N.mul_comm mn 2), (N.mul_comm mn 4). reflexivity.
 Qed.
